@@ -104,6 +104,26 @@ SUMMARY = {
  "C18-r5": "fields of the Basic variant of ProofOfKnowledge declared as {v, u}: the positional binary codec swaps commitment and response, pinned Basic proofs no longer verify",
  "C19-r5": "duplicate-pair refusal in core_aggregate_verify keyed on the Display string of the point: affine in blst, projective in the pure-Rust backend, so the backends disagree when one copy of the key was decoded from bytes",
  "C20-r5": "ProofCommitmentChallenge::new draws from a per-thread generator cloned from one process-wide master: the i-th challenge is the same on every thread",
+ "C01-r6": "augmentation verifier skips the key prefix when the message already starts with the signer's public key (signing always prefixes): such honest signatures are rejected",
+ "C02-r6": "pairing helper of G2Impl treats Z^2 == 1 as 'already affine': a point held with Z = -1 enters the pairing negated (same key rejected, -pk accepted)",
+ "C03-r6": "BlsSignature::secret_key_from_hash / random_secret_key call hash_to_scalar(salt, ikm) with the arguments swapped; the other key-generation doors are unaffected",
+ "C04-r6": "partial signing tests the whole 33-byte share container for zero instead of the value: a zero-valued share with a non-zero identifier signs (identity signature share)",
+ "C05-r6": "tag constants built by a macro; the G2Impl POP_DST call site omits the trailing underscore",
+ "C06-r6": "batched Miller loop (64 pairs per batch) in the G2Impl pairing helper forgets to clear the scratch vector: aggregates of 64 signers are mis-verified",
+ "C07-r6": "identity-valued parts are skipped before the scheme test in accumulation: [PoP, PoP, Aug(identity)] or [Aug, Aug(identity)] accumulate",
+ "C08-r6": "SignatureShare::verify re-dispatches by scheme and its ProofOfPossession arm calls the Basic verifier: own PoP partial signatures are rejected through this door",
+ "C09-r6": "ProofOfPossession byte decoder uses from_bytes_unchecked: a proof moved by a cofactor-torsion point decodes and verifies (G1Impl)",
+ "C10-r6": "the Basic arm of ProofOfKnowledgeTimestamp::verify inlines the verifier without the timeout block: Basic timestamp proofs never expire",
+ "C11-r6": "PublicKey::sign_crypt reuses the time-lock helper and seals pk||msg under MessageAugmentation: decryption returns pk||msg",
+ "C12-r6": "decrypt_with_shares scrubs failures with `if !plaintext.is_empty()`: the empty message comes back as nothing",
+ "C13-r6": "De-Morgan slip in the identity guard of unseal: the identity signature alone passes, a ciphertext sealed around the pairing value 1 opens",
+ "C14-r6": "new sanity check in seal_scalar_with_proof compares the PUBLIC KEY with the base point: no proof can be made for the recipient key 1",
+ "C15-r6": "MultiPublicKey byte decoder uses the default point as its failure marker: the identity accumulated key no longer imports from bytes",
+ "C16-r6": "SecretKeyEnum visitor reads the key element with unwrap_or_default: the JSON document [\"BLS12381G1\"] decodes to the zero key",
+ "C17-r6": "run folding in core_aggregate_verify peeks without advancing: two adjacent entries with equal messages (PoP; Aug with the same pair) never return",
+ "C18-r6": "time-lock key stream re-created per 168-byte chunk: every chunk is masked with the first block (payloads over 168 bytes change on the wire, library round trips still work)",
+ "C19-r6": "share combination through a const table built with from_raw_unchecked, which means Montgomery form in one backend and plain integers in the other: blst combines wrongly when identifiers straddle 31/32",
+ "C20-r6": "split builds its polynomial from a key-material buffer whose chunked fill (over 256 bytes, i.e. threshold >= 10) writes nothing: shares are identical on every call",
 }
 
 def main():
